@@ -9,3 +9,4 @@ CONSTANTS
   SamplePick = 0
   ValidOnly = FALSE
   MaxInc = 2
+  OneKw = FALSE
